@@ -44,6 +44,11 @@ CHECKS = {
          "All ordered pairs of the value pool are evaluated under ==, !=, std.equals, <, <=, >, >=, std.__compare(_array); equality must coincide with equality of the manifested JSON trees (numeric ==), the order with code-point / lexicographic order, unordered kinds must fail; reflexivity, symmetry, transitivity and congruence are checked over the complete tables (all ordered triples); laziness and border cases are pinned.",
          "Trusted: the JSON-tree model of equality and order; values outside the pool are not covered.",
          "DESIGN.md §4 C08"),
+ "C04": ("model_checking",
+         "exhaustive metamorphic exploration: every node of every corpus program wrapped in std.trace (run count vs the reference interpreter), replaced by a failing expression when never run, and rewritten in 7-9 meaning-preserving ways",
+         "For every program of the lazy/functions/objects/comprehensions corpora and every node: the number of times the node runs must equal the reference interpreter's count (0 = never, 1 = once however often it is used); a node that never runs can be replaced by `error` without changing the outcome; naming it with a local, passing it through an identity function, wrapping it in a one-element array or one-field object, adding dead locals/fields/parameters leaves value, message and std.trace output unchanged. Builtins taking functions are covered by templates with marked dead and shared positions.",
+         "Trusted: refeval.rs memoisation semantics (per object value and layer); run counts compared only for programs yielding a value.",
+         "DESIGN.md §4 C04"),
 }
 def main():
     hooks = subprocess.run(["git","-C","/repo","log","--format=%H %s"],capture_output=True,text=True).stdout.splitlines()
